@@ -17,9 +17,12 @@ namespace MySensors
 def asciiDigit (c : Char) : Option Nat :=
   if '0'.toNat ≤ c.toNat ∧ c.toNat ≤ '9'.toNat then some (c.toNat - '0'.toNat) else none
 
-/-- one section: a non-empty run of decimal digits (regex `\d`: any Unicode Nd digit, like `int()`) -/
+/-- one section: a non-empty run of decimal digits (regex `\d`: any Unicode Nd digit, like `int()`).
+    A section of more than `intMaxDigits` digits makes `int()` raise ValueError *if the comparison
+    gets as far as that section* (awesomeversion compares lazily; `get_const` does not catch it):
+    such strings are outside the modelled domain. -/
 def parseSection (s : Str) : Option Nat :=
-  if s.isEmpty then none else (s.mapM digitVal).map ofDigits
+  if s.isEmpty || PyTables.intMaxDigits < s.length then none else (s.mapM digitVal).map ofDigits
 
 def dropTrailingDot (s : Str) : Str :=
   match popLast s with
@@ -42,11 +45,11 @@ def versionString (s : Str) : Str := dropPrefix (dropTrailingDot (strip s))
 def parseVersion (s : Str) : Option (List Nat) :=
   (splitOn '.' (versionString s)).mapM parseSection
 
-/-- `a < b` section-wise, missing sections count as 0 -/
+/-- `a < b` section-wise, missing sections count as 0 (structural recursion on the first list,
+    so that it reduces in the kernel) -/
 def sectionsLt : List Nat → List Nat → Bool
-  | [], [] => false
-  | [], b :: bs => if 0 < b then true else if b < 0 then false else sectionsLt [] bs
-  | a :: as, [] => if a < 0 then true else if 0 < a then false else sectionsLt as []
+  | [], bs => bs.any (0 < ·)
+  | _ :: _, [] => false
   | a :: as, b :: bs => if a < b then true else if b < a then false else sectionsLt as bs
 
 /-- awesomeversion's "special container" words: they compare greater than every number -/
